@@ -30,8 +30,12 @@ var spPairs = []spPair{
 	{A: "tensor.(Float32Engine).FMA", B: "tensor.(Float64Engine).FMA", Map: [][2]string{{"32", "64"}}, Props: []string{"C20"}},
 	{A: "tensor.(Float32Engine).FMAScalar", B: "tensor.(Float64Engine).FMAScalar", Map: [][2]string{{"32", "64"}}, Props: []string{"C20"}},
 	{A: "tensor.(Float32Engine).Inner", B: "tensor.(Float64Engine).Inner", Map: [][2]string{{"32", "64"}, {"whichblas.S", "whichblas.D"}}, Props: []string{"C20", "C09"}},
+	{A: "tensor.(StdEng).softMaxLastDimF32", B: "tensor.(StdEng).softMaxLastDimF64", Map: [][2]string{{"math32", "math"}, {"32", "64"}}, Props: []string{"C17"}},
+	{A: "tensor.(StdEng).softMaxInnerDimF32", B: "tensor.(StdEng).softMaxInnerDimF64", Map: [][2]string{{"float32(0)", "0"}, {"math32", "math"}, {"32", "64"}}, Props: []string{"C17"}},
+	{A: "tensor.(StdEng).softMaxBInnerDimF32", B: "tensor.(StdEng).softMaxBInnerDimF64", Map: [][2]string{{"float32(0)", "0"}, {"math32", "math"}, {"32", "64"}}, Props: []string{"C17"}},
 	{A: "tensor.(Float32Engine).checkThree", B: "tensor.(Float64Engine).checkThree", Map: [][2]string{{"32", "64"}}, Props: []string{"C20"}},
 	{A: "tensor.(Float32Engine).checkTwo", B: "tensor.(Float64Engine).checkTwo", Map: [][2]string{{"32", "64"}}, Props: []string{"C20"}},
+	{A: "tensor.(*Dense).Filled", B: "tensor.(*Dense).FilledInplace", Map: [][2]string{{"%0 = $r.Clone().(*tensor.Dense)\n", ""}, {"%0", "$r"}, {"%1", "%0"}, {"%2", "%1"}, {"%3", "%2"}, {"%4", "%3"}, {"%5", "%4"}, {"%6", "%5"}, {"%7", "%6"}, {"%8", "%7"}, {"%9", "%8"}}, Props: []string{"C15"}},
 	{A: "tensor.(*Dense).FlatNotMaskedContiguous", B: "tensor.(*Dense).FlatMaskedContiguous", Map: [][2]string{{"NextInvalid", "NEXTA"}, {"NextValid", "NextInvalid"}, {"NEXTA", "NextValid"}}, Props: []string{"C15"}},
 	{A: "tensor.(*Dense).FlatNotMaskedEdges", B: "tensor.(*Dense).FlatMaskedEdges", Map: [][2]string{{"NextInvalid", "NEXTA"}, {"NextValid", "NextInvalid"}, {"NEXTA", "NextValid"}}, Props: []string{"C15"}},
 }
